@@ -78,6 +78,14 @@ class Violation(object):
         return dict(label=self.label, detail=self.detail, inputs=self.inputs)
 
 
+class Prefix(list):
+    ''' A queued decision prefix, optionally with a model witnessing its feasibility. '''
+
+    def __init__(self, items, model=None):
+        list.__init__(self, items)
+        self.model = model
+
+
 class PathResult(object):
     def __init__(self):
         self.kind = None      # 'ok' | 'cut' | 'exc'
@@ -116,6 +124,7 @@ class Ctx(object):
         self.trail = []
         self.pos = 0
         self._model = None
+        self._replay_model = None
         self.notes = []
 
     # ------------------------------------------------------------------ inputs
@@ -154,6 +163,17 @@ class Ctx(object):
             self.inputs.append(('%s_%d' % (name, i), v, 'int'))
             self._assume(z3.And(v >= 0, v <= 255))
             items.append(SInt(v))
+        return SBuf.mk([Lit(items)])
+
+    def sym_bytes_bv(self, name, n):
+        ''' n symbolic octets backed by 8-bit vectors (for bit-precise CRC reasoning). '''
+        if self.mode == 'conc':
+            return bytes(int(self.conc_inputs.get('%s_%d' % (name, i), 0)) for i in range(n))
+        items = []
+        for i in range(n):
+            v = z3.BitVec('%s_%d' % (name, i), 8)
+            self.inputs.append(('%s_%d' % (name, i), v, 'bv'))
+            items.append(SInt(z3.BV2Int(v)))
         return SBuf.mk([Lit(items)])
 
     def sym_blob(self, name, length):
@@ -217,6 +237,10 @@ class Ctx(object):
         finally:
             if extra is not None:
                 self.solver.pop()
+        if rs == 'unknown' and extra is not None:
+            rs2 = self._check_cone(extra)
+            if rs2 is not None:
+                rs = rs2
         self.stats.solver_s += time.time() - t
         if rs == 'sat':
             self.stats.q_sat += 1
@@ -226,7 +250,78 @@ class Ctx(object):
             self.stats.q_unknown += 1
         return rs
 
+    def _check_cone(self, extra):
+        ''' Fallback for a query the default solver gave up on: decide `extra` together with the part of the path
+        condition that shares variables with it (its cone of influence) in a fresh solver.  Sound in both
+        directions because the rest of the (satisfiable) path condition has disjoint variables. '''
+        def fv(e, acc, seen):
+            stack = [e]
+            while stack:
+                x = stack.pop()
+                k = x.get_id()
+                if k in seen:
+                    continue
+                seen.add(k)
+                if z3.is_const(x) and x.decl().kind() == z3.Z3_OP_UNINTERPRETED:
+                    acc.add(x.decl().name())
+                else:
+                    stack.extend(x.children())
+            return acc
+        try:
+            evars = fv(extra, set(), set())
+            pcv = [(p, fv(p, set(), set())) for p in self.pc]
+            cone = set(evars)
+            chosen = []
+            changed = True
+            rest = list(pcv)
+            while changed:
+                changed = False
+                keep = []
+                for (p, vs) in rest:
+                    if vs & cone:
+                        chosen.append(p)
+                        cone |= vs
+                        changed = True
+                    else:
+                        keep.append((p, vs))
+                rest = keep
+            s2 = z3.Solver()
+            s2.set('timeout', max(self.qtimeout_ms * 3, 30000))
+            s2.add(*chosen)
+            s2.add(extra)
+            r = str(s2.check())
+            self.notes.append('cone-of-influence fallback: %d of %d constraints -> %s' % (len(chosen), len(self.pc), r))
+            if r == 'sat':
+                # extend the cone model to a model of the whole path condition: fix the cone variables
+                m2 = s2.model()
+                self.solver.push()
+                try:
+                    self.solver.add(extra)
+                    for d in m2.decls():
+                        if d.arity() == 0:
+                            self.solver.add(d() == m2[d])
+                    if str(self.solver.check()) == 'sat':
+                        self._last_model = self.solver.model()
+                        return 'sat'
+                finally:
+                    self.solver.pop()
+                return None
+            if r == 'unsat':
+                return 'unsat'
+        except z3.Z3Exception as err:
+            self.notes.append('cone fallback failed: %s' % err)
+        return None
+
     def model(self):
+        if self._model is None and self._replay_model is not None and self.pos >= len(self.trail):
+            # the model found when this path was forked off still witnesses the replayed path condition
+            m = self._replay_model
+            self._replay_model = None
+            try:
+                if all(z3.is_true(m.eval(p, model_completion=True)) for p in self.pc):
+                    self._model = m
+            except z3.Z3Exception:
+                pass
         if self._model is None:
             r = self._check()
             if r == 'unsat':
@@ -276,9 +371,9 @@ class Ctx(object):
         if r == 'sat':
             other_model = self._last_model
             self.stats.forks += 1
-            # follow True first
+            # follow True first; the queued False side keeps the model that witnesses it
             d = True
-            self.stack.append(self.trail + [False])
+            self.stack.append(Prefix(self.trail + [False], other_model if mv else m))
             if mv is not True:
                 self._model = other_model
         else:
@@ -430,6 +525,7 @@ class Ctx(object):
             if t_end is not None and time.time() > t_end:
                 raise Inconclusive('case exceeded its time budget of %ds after %d paths' % (self.max_seconds, self.stats.paths))
             prefix = self.stack.pop()
+            self._replay_model = getattr(prefix, 'model', None)
             self.trail = list(prefix)
             self.pos = 0
             self.pc = []
@@ -511,6 +607,26 @@ def _z(x):
     if isinstance(x, float) and x.is_integer():
         return z3.IntVal(int(x))
     return None
+
+
+def bv_of(x):
+    ''' The bit-vector behind an int-like value of the form BV2Int(bv), else None. '''
+    e = x.e if isinstance(x, SInt) else None
+    if e is not None and z3.is_app(e) and e.decl().kind() == z3.Z3_OP_BV2INT:
+        return e.arg(0)
+    return None
+
+
+def eq_term(u, v):
+    ''' z3 Bool for u == v on int-likes, comparing in bit-vector theory when both sides allow it. '''
+    bu, bv_ = bv_of(u), bv_of(v)
+    if bu is not None and bv_ is not None and bu.size() == bv_.size():
+        return bu == bv_
+    if bu is not None and not is_sym(v) and 0 <= int(v) < 2 ** bu.size():
+        return bu == z3.BitVecVal(int(v), bu.size())
+    if bv_ is not None and not is_sym(u) and 0 <= int(u) < 2 ** bv_.size():
+        return bv_ == z3.BitVecVal(int(u), bv_.size())
+    return _z(u) == _z(v)
 
 
 def mk_int(e):
@@ -1265,7 +1381,7 @@ def same_bytes(a, b):
             for i in range(n):
                 u, v = x.items[i], y.items[i]
                 if is_sym(u) or is_sym(v):
-                    conj.append(_z(u) == _z(v))
+                    conj.append(eq_term(u, v))
                 elif u != v:
                     return False
             x2 = Lit(x.items[n:])
